@@ -35,25 +35,49 @@ def export_space(module: str, cfg: str, workdir: str, name: str = "space.ndjson"
 
 
 def validate(module: str, cfg: str, workdir: str, records: List[Any], expected_states: Optional[int] = None,
-             workers: int = 16, name: str = "trace.ndjson", env=None, timeout: int = 7200
+             workers: int = 16, name: str = "trace.ndjson", env=None, timeout: int = 7200,
+             max_bytes: int = 24_000_000
              ) -> Tuple[Dict[int, Tuple[List[str], List[str]]], "tlc.TlcResult"]:
-    """(C) returns {trace index (0-based): (failed clauses, drift clauses)} for lines with a non-empty verdict."""
-    path = os.path.join(workdir, name)
-    n = write_ndjson(path, records)
-    if n == 0:
+    """(C) returns {trace index (0-based): (failed clauses, drift clauses)} for lines with a non-empty verdict.
+    Large trace sets are validated in chunks of about max_bytes of NDJSON (one TLC run each) so that the JVM
+    heap stays small; the returned TlcResult carries the summed state counts."""
+    if not records:
         raise tlc.MachineryError("no traces to validate")
-    e = {"TRACE_FILE": path}
-    e.update(env or {})
-    r = tlc.run_tlc(module, cfg, workdir, env=e, workers=workers, timeout=timeout)
-    if expected_states is not None and r.distinct != expected_states:
-        raise tlc.MachineryError(f"{module}: TLC explored {r.distinct} states, expected {expected_states} "
-                                 f"(a trace was not run to its end)")
+    lines = [json.dumps(r, separators=(",", ":")) for r in records]
+    chunks: List[Tuple[int, int]] = []
+    start, size = 0, 0
+    for i, ln in enumerate(lines):
+        if size + len(ln) > max_bytes and i > start:
+            chunks.append((start, i))
+            start, size = i, 0
+        size += len(ln) + 1
+    chunks.append((start, len(lines)))
     verdicts: Dict[int, Tuple[List[str], List[str]]] = {}
-    for v in r.prints:
-        tid = v[1] - 1
-        verdicts[tid] = (sorted(tlc.as_set(v[2])), sorted(tlc.as_set(v[3])))
-    os.remove(path)
-    return verdicts, r
+    total = None
+    for (a, b) in chunks:
+        path = os.path.join(workdir, name)
+        with open(path, "w") as f:
+            for ln in lines[a:b]:
+                f.write(ln)
+                f.write("\n")
+        e = {"TRACE_FILE": path}
+        e.update(env or {})
+        r = tlc.run_tlc(module, cfg, workdir, env=e, workers=workers, timeout=timeout)
+        for v in r.prints:
+            tid = v[1] - 1 + a
+            verdicts[tid] = (sorted(tlc.as_set(v[2])), sorted(tlc.as_set(v[3])))
+        os.remove(path)
+        if total is None:
+            total = r
+        else:
+            total.generated += r.generated
+            total.distinct += r.distinct
+            total.wall_s += r.wall_s
+            total.depth = max(total.depth, r.depth)
+    if expected_states is not None and total.distinct != expected_states:
+        raise tlc.MachineryError(f"{module}: TLC explored {total.distinct} states, expected {expected_states} "
+                                 f"(a trace was not run to its end)")
+    return verdicts, total
 
 
 def export_by_print(module: str, cfg: str, workdir: str, workers: int = 8, env=None) -> List[Any]:
